@@ -1,5 +1,6 @@
 //! Conformance drivers (pv-ledger): phase-1 ledger validation (C33-C39).
 #![recursion_limit = "512"]
+mod c08v;
 mod case;
 mod cbor;
 mod fixtures_data;
@@ -19,6 +20,7 @@ fn main() {
         "phase1-trace" => trace::run(&args),
         "validate-txs-trace" => vtxs::run(&args),
         "phase1-synth" => synth::run(&args),
+        "c08-validator" => c08v::run(&args),
         other => pv_core::die(&format!("unknown sub-command {other}")),
     }
 }
